@@ -184,3 +184,15 @@ Theorem set_public_key_own_valid : forall (c : crypto) kt r k sg s,
   step c kt r (OSetPublicKey (sk_pub k)) k sg = (Ok RUnit, cand (seq r + 1) (node_id_of (sk_pub k)) (content r) s).
 Proof. exact Thm_Cause.set_public_key_own_valid. Qed.
 Print Assumptions set_public_key_own_valid.
+
+(* whatever order an implementation looks for them in: the error a failing call reports is one of the causes that hold
+   of the call before signing (presign_causes: each element is by definition a cause that holds), or the signer
+   refused the message of this call, or the signed result is too large. The correspondence run accepts any kind in
+   this set from the implementation (two independent checks may be made in either order). *)
+Theorem step_err_is_a_cause : forall (c : crypto) kt r o k sg e r',
+  step c kt r o k sg = (Err e, r') ->
+  In e (presign_causes c kt r o k) \/
+  (e = ESigningError /\ sg (to_sign r o k) = None) \/
+  (e = EExceedsMaxSize /\ exists s, sg (to_sign r o k) = Some s /\ MAX_ENR_SIZE < size (result_with r o k s)).
+Proof. exact Thm_Cause.step_err_is_a_cause. Qed.
+Print Assumptions step_err_is_a_cause.
